@@ -94,6 +94,8 @@ where
                 let state = evm.finalize();
                 output.map(|output| {
                     let result = output.into_immediate_result();
+                    #[cfg(feature = "verif")]
+                    crate::verif::event(crate::verif::Event::SeqCommit { txid, result: &result, state: &state });
                     evm.db_mut().commit(state);
                     result
                 })
@@ -114,6 +116,8 @@ where
             let outcome = match transact(txid, &self.txs[txid]) {
                 Ok(result) => TxExecutionOutcome::Executed(result),
                 Err(EVMError::Transaction(error)) => {
+                    #[cfg(feature = "verif")]
+                    crate::verif::event(crate::verif::Event::SeqSkipped { txid });
                     tracing::error!(
                         target: "grevm::scheduler",
                         block_number = %self.env.number,
@@ -124,6 +128,8 @@ where
                     TxExecutionOutcome::Skipped(error)
                 }
                 Err(error) => {
+                    #[cfg(feature = "verif")]
+                    crate::verif::event(crate::verif::Event::SeqError { txid });
                     return SequentialReplayOutput {
                         outcomes,
                         error: Some(GrevmError { txid, error }),
